@@ -55,7 +55,7 @@ func (cl *Cluster) SplitAt(key []byte) bool {
 	if leaderPeer == 0 {
 		leaderPeer = peerIDs[0]
 	}
-	cl.C.Split(region.Id, newRegionID, key, peerIDs, leaderPeer)
+	cl.C.VerifSplit(region.Id, newRegionID, key, peerIDs, leaderPeer)
 	if cl.Sim != nil {
 		cl.Sim.Count("topo.split")
 	}
@@ -71,7 +71,7 @@ func (cl *Cluster) MergeAt(key []byte) bool {
 	// find the neighbour whose start is region.EndKey
 	for _, r := range cl.C.GetAllRegions() {
 		if bytes.Equal(r.Meta.StartKey, region.EndKey) {
-			cl.C.Merge(region.Id, r.Meta.Id)
+			cl.C.VerifMerge(region.Id, r.Meta.Id)
 			if cl.Sim != nil {
 				cl.Sim.Count("topo.merge")
 			}
